@@ -89,6 +89,10 @@ def jobs(tier):
         addr = 10 if state == 'normal_immediate' else 128
         for entry in ENTRIES:
             out.append(Job('C13', 'c13:h_send', {'state': state, 'entry': entry, 'addr': addr}, W=40, wall=120, validate=1))
+    for addr0 in (0, 253):
+        for state in ('normal_immediate', 'cannot_claim', 'bypassed'):
+            for entry in ('send_pgn', 'send_message', 'send_request', 'dm22'):
+                out.append(Job('C13', 'c13:h_send', {'state': state, 'entry': entry, 'addr': addr0}, W=40, wall=120, validate=1))
     # the contender that takes the address away has a symbolic NAME (any value lower than ours)
     for state in ('lost_waiting', 'moved', 'moved_lost_waiting', 'moved_twice', 'cannot_claim'):
         for entry in ('send_pgn', 'send_message', 'send_request'):
